@@ -35,6 +35,25 @@ def oracle(ctx, cases):
         ctx.count("outcome:ok")
         r = c.result
         plain = gen_value.is_plain(c.value)
+        if not plain:
+            # whatever the value (placeholders included): a schema that was RETURNED is a usable object — printing it,
+            # validating against it and generating from it do not trip over its own structure
+            for what, f in (("repr", lambda: repr(r)), ("validate", lambda: [validate(r, p) for p in (None, 1, "a", [], [1], [1, 2, 3], {}, {"a": 1})]),
+                            ("fake", lambda: SR.generate(r, SR.make_policy("lo", ctx.rnd)))):
+                try:
+                    out = f()
+                    if what == "fake" and out[0][0] == "exc" and isinstance(out[0][1], (AttributeError, TypeError, KeyError, IndexError)):
+                        raise out[0][1]
+                except (AttributeError, TypeError, KeyError, IndexError) as e:
+                    try:
+                        rtxt = repr(r)
+                    except Exception:  # noqa: BLE001
+                        rtxt = "<unprintable>"
+                    ctx.violation("substitution returned a schema that cannot be used: %s raises %s" % (what, type(e).__name__),
+                                  result=rtxt, exception=repr(e)[:200], **info)
+                    break
+                except Exception:  # noqa: BLE001
+                    pass
         # usable: can be generated from, and what it generates it accepts
         if plain and not gen_value.has_nan(c.value):
             # only when the original is hereditarily satisfiable by construction (it is: generator) and the witness checks
@@ -70,7 +89,7 @@ def run(ctx):
         ctx.breakage("translation", "substitutor / from_native extraction failed (d42/utils/_from_native.py or the scalar "
                      "visit_* methods of d42/substitution/_substitutor.py no longer consist of the recognised idioms): " + msg)
     runner.prove(ctx, MODULE, THEOREMS, FILES)
-    cases = substcorr.batch(ctx, ctx.n(90, 700), customs=True) + substcorr.list_form_cases(ctx) + substcorr.open_dict_any_cases(ctx, ctx.n(150, 1500)) + substcorr.untyped_pair_cases(ctx) + substcorr.untyped_edge_cases(ctx) + substcorr.list_window_cases(ctx) + substcorr.float_precision_cases(ctx) + substcorr.many_errors_cases(ctx) + substcorr.list_partial_dict_cases(ctx)
+    cases = substcorr.batch(ctx, ctx.n(90, 700), customs=True) + substcorr.list_form_cases(ctx) + substcorr.open_dict_any_cases(ctx, ctx.n(150, 1500)) + substcorr.untyped_pair_cases(ctx) + substcorr.untyped_edge_cases(ctx) + substcorr.untyped_zoo_cases(ctx) + substcorr.list_ellipsis_position_cases(ctx) + substcorr.relaxed_marker_position_cases(ctx) + substcorr.list_window_cases(ctx) + substcorr.float_precision_cases(ctx) + substcorr.many_errors_cases(ctx) + substcorr.list_partial_dict_cases(ctx)
     for c in cases:
         substcorr.run_real(c)
     ctx.count("skipped_unencodable", sum(1 for c in cases if c.skip))
